@@ -321,7 +321,19 @@ class C09(Prop):
             "stack squeezed through float32 / int32 would change) or negative. Sizes beyond the usual (feature layers>5 / lines>6, ~3 %): "
             "6..16 layers of 1-3 lines, 7..24 lines in one layer kind. The object is made by SRRLaser(...), by SRRLaser.from_list (float64 "
             "stacks, feature ctor:from_list, ~8 %) or by SRRLaser.from_lasers followed by the assignment of the config (ctor:from_lasers, "
-            "~8 %). Besides get(layer=i) and get(layer=i, flat=True), get(element, layer=i) is read for every layer")
+            "~8 %). Besides get(layer=i) and get(layer=i, flat=True), get(element, layer=i) is read for every layer; get(name) and "
+            "get(name, flat=True) for EVERY element. Calls of get BEFORE the observations of a state (features cread:*, creads:first / "
+            "creads:mid; 30 % of the fresh reconstructions, half of the histories + 12 fixed cases): 1-3 calls with calibrate=True (85 %) "
+            "or not, one element or all, a layer or the reconstruction, flat or not, on an object whose elements carry NON-identity "
+            "calibrations (calibration:non-identity; given to the constructor / the first Laser of from_lasers / put into the public dict; "
+            "reassigned by history step `cal`); afterwards every plain observation must still be the geometric model of the ORIGINAL "
+            "layers and laser.data must hold them (the in-place calibration loop of get writes into whatever its local `data` refers to). "
+            "Arrays returned by layer reads and by those calls are among the arrays the `scribble` step overwrites. "
+            "check_config_valid(config) with 1-3 configurations OTHER than the object's own (probe-config:*, 40 %): more / negative warm-up, "
+            "the largest warm-up that fits and one sample more, another magnification, other offsets. Same-parity layers of different "
+            "lengths (feature ragged, ~8 %: every layer from the third on 0-5 samples longer or shorter than the first of its kind, all "
+            "long enough). Memory layouts of the layers (layout:F / strided / T, ~20 %), one dtype per field and big-endian fields "
+            "(dtype:mixed-fields, dtype:big-endian). ONE raster attribute of the config assigned (history:config-one-attribute:*)")
     trusted = [
         "'integer magnification' means spotsize/(speed*scantime) evaluates to an integer in float64 (DESIGN 6a); the driver computes "
         "that float64 value itself from the three inputs (PewModel/Srr.lean `fl`: round to nearest, ties to even, normal range) and the "
@@ -372,6 +384,19 @@ class C09(Prop):
         "lcm * numerator does not fit 2^60 are counted as hypothesis-excluded, never compared",
         "a change of the array LAYOUT (field names, order, shape) that keeps from_array(to_array(c)) = c is reported as an "
         "implementation-vs-model difference (the model's arrays are the ones NumPy builds now), not as a violation of the specification",
+        "no clause of the property says what get(calibrate=True) returns: the values of a calibrated read are compared with the model "
+        "(PewModel/Srr.lean Laser.get / getSpec, exact (x - intercept) / gradient; 1e-12 of the magnitudes involved, 2^-20 for float32 "
+        "fields; integer fields written back into their own dtype not compared) and a difference is RECORDED as a feature ('calibrated "
+        "read: values differ from the model (recorded only)'), never a verdict (notes/SECTION13.md 13.2). What is demanded after any "
+        "calls of get is what the property says of every read: layers unmodified, voxels and flat image the geometric model of the "
+        "stored layers (theorems reads_do_not_change_store, reconstruction_after_reads). Plain (calibrate=False) calls among `creads` are "
+        "compared exactly like the standing observations",
+        "the byte order of the dtype of a reconstruction is not compared (field names, kinds and sizes are)",
+        "same-parity layers of different lengths: every layer is at least as long as needed whenever the first two are (theorem "
+        "krisskross_voxel_ragged); a stack whose first two layers are long enough and a later one is not (accepted by the validity "
+        "check, which reads layers 0 and 1, DESIGN 9.5) is hypothesis-excluded",
+        "configurations handed to check_config_valid (`probes`) with a near-integer magnification are skipped; with a warm-up decided by "
+        "float rounding only the model is compared",
     ]
 
     def generate(self, rng, tier):
